@@ -4,6 +4,7 @@ import I2N.Lemmas.TravTerm
 import I2N.Lemmas.TravGlobal
 import I2N.Lemmas.TravGlobalN
 import I2N.Lemmas.TravGlobalR
+import I2N.Lemmas.TravFair
 import I2N.Model.TravMon
 /-!
 # C02 — Traversal terminates and every selected test gets a definite result  (partial by design)
@@ -1051,5 +1052,92 @@ example :
 example := single_worker_terminates_roots_partial gRoot (by decide) (by decide) (by decide) (by decide) (by decide) 3
   (by decide) (by decide +kernel) [] (List.replicate 95 (⟨none, 0⟩, 82))
   (fun x hx => by rw [List.eq_of_mem_replicate hx]; decide) (by rw [List.length_replicate]; decide)
+
+/-! ## Several workers, FAIR scheduler: the whole traversal terminates (`Lemmas/TravFair.lean`)
+
+Scheduler view as above (`GlobalN.StepN`, `GlobalN.runStepsN`).  `Fair.FairW g K s steps`: every `K` consecutive steps of the
+run resume every real worker whose traversal is not over at the beginning of those `K` steps (an inductive predicate over
+the list of resumes; decidable).  `Fair.BumpFree g s steps`: no step of the run raises a `max_concurrent_tries` counter
+(weaker than `GlobalN.Patient`, which implies it — `Fair.bumpFree_of_patient` —, and observable in the states of the run:
+`Fair.bumpFreeB`).  `Fair.Alive g s`: some real worker is not over and no real worker is `failed`. -/
+
+open I2N.Trav.Term I2N.Trav.Global I2N.Trav.GlobalN I2N.Trav.Fair in
+/-- **fair_window_has_progress** (the bounded-bounces-between-progress lemma).  Static hypotheses of
+`nonbounce_steps_bounded_partial` without the class hypotheses; `pre` any admissible run from the initial state, `win` any
+further steps.  If nobody is dead and somebody is not over after `pre`, and `win` resumes every worker that is not over
+after `pre` at least once, then `win` contains a PRODUCTIVE step (a step inside a test, or a step from the loop / a
+back-off sleep that does not end in a back-off sleep).  Hence under fairness with window `K` at most `K - 1` consecutive
+steps are back-off steps or no-ops of finished workers.
+Why: if some worker is inside a test, its first step in `win` is productive; otherwise steps of finished workers change
+nothing, and the first step of a worker that is not over finds no `started` mark (`bounce_only_while_someone_runs`), so it
+does not end asleep.  "Nobody is dead" cannot be dropped: `dead_holder_blocks_last_worker`. -/
+theorem fair_window_has_progress (g : Graph) (hr : rankedB g = true) (hsym : edgeSymB g = true)
+    (hflat : noFlatB g = true) (hwf : graphWF g = true) (ncls : Nat)
+    (hcls : ∀ n, n < g.nodes.length → (g.node n).cls < ncls)
+    (store : List (String × List (String × String))) (pre win : List StepN)
+    (hreal : ∀ x ∈ pre ++ win, x.1 < g.workers.length) (hfuel : ∀ x ∈ pre ++ win, bound g ≤ x.2.2)
+    (hcalm : BumpFree g (initState g ncls store) (pre ++ win))
+    (hcov : ∀ v, v < g.workers.length → isOver ((runStepsN g (initState g ncls store) pre).wd v).pc = false →
+      v ∈ win.map (·.1))
+    (halive : Alive g (runStepsN g (initState g ncls store) pre)) :
+    1 ≤ productiveSteps g (runStepsN g (initState g ncls store) pre) win := by
+  have st : StaticN g ncls := ⟨hr, hsym, hflat, hwf, hcls⟩
+  obtain ⟨ok1, ok2⟩ := runOK_append g pre win _ (runOK_of g _ _ hreal hfuel hcalm)
+  exact window_productive st _ (ginvN_run st pre _ (ginvN_init g ncls store) ok1) win ok2 hcov halive
+
+open I2N.Trav.Term I2N.Trav.Global I2N.Trav.GlobalN I2N.Trav.Fair in
+/-- **multi_worker_terminates_fair** (`_partial`: class hypotheses, no bump).  Pre-parsed acyclic graph, ANY number of
+workers, any outcomes (any status, results that never arrive, any duration), steps of real workers with `fuel ≥ bound g`;
+`noRootsB`, `classesOKB` as in `nonbounce_steps_bounded_partial`; no step raises a `max_concurrent_tries` (`BumpFree`); the
+run is FAIR with window `K ≥ 1` (`FairW`: every `K` consecutive resumes resume every worker that is not over).  Then after
+ANY such run of at least `(24·Σ_n max(max_tries n, 1) + |workers| + 1)·K` resumes every worker is `done` — or some worker is
+`failed` (in the code the exception of one worker ends the whole run through `asyncio.gather`).
+
+Why: the number of productive steps is at most `24·Σ_n max(max_tries n, 1) + |workers|` (`Fair.productive_le_run`, the
+counter of `nonbounce_steps_bounded_partial`), and every window of `K` steps that ends with somebody not over and nobody
+dead contains one (`fair_window_has_progress`); being over and being dead are absorbing.
+
+Hypotheses: `FairW` cannot be dropped — a scheduler that never resumes the worker inside the test lets the other one sleep
+again and again, each step `bounce → bounce` (not `decide`d: the second sleep at one node evaluates a `Float` comparison,
+which the kernel cannot); the `failed` alternative cannot be dropped (`dead_holder_blocks_last_worker`: a dead worker
+keeps its mark and the survivors sleep for ever under every fair schedule); `0 < K` is technical (`window_zero_is_vacuous`:
+with `K = 0` the empty run is fair and long enough).  MISSING for the full statement: as for
+`nonbounce_steps_bounded_partial` — object roots, the class hypotheses, and `BumpFree` (after a bump the C03 budget grows). -/
+theorem multi_worker_terminates_fair_partial (g : Graph) (hr : rankedB g = true) (hsym : edgeSymB g = true)
+    (hflat : noFlatB g = true) (hwf : graphWF g = true) (ncls : Nat)
+    (hcls : ∀ n, n < g.nodes.length → (g.node n).cls < ncls) (hroots : noRootsB g = true) (hcl : classesOKB g = true)
+    (store : List (String × List (String × String))) (K : Nat) (hK : 0 < K) (steps : List StepN)
+    (hreal : ∀ x ∈ steps, x.1 < g.workers.length) (hfuel : ∀ x ∈ steps, bound g ≤ x.2.2)
+    (hcalm : BumpFree g (initState g ncls store) steps) (hfair : FairW g K (initState g ncls store) steps)
+    (hlen : (24 * resultBound g + g.workers.length + 1) * K ≤ steps.length) :
+    (∀ v, v < g.workers.length → ((runStepsN g (initState g ncls store) steps).wd v).pc = .done) ∨
+    (∃ v, v < g.workers.length ∧ ((runStepsN g (initState g ncls store) steps).wd v).pc = .failed) :=
+  not_alive (fair_run_over ⟨hr, hsym, hflat, hwf, hcls⟩ hroots hcl store K hK steps
+    (runOK_of g _ _ hreal hfuel hcalm) hfair hlen)
+
+/-- `runOfGDuo` (worker 0 starts, worker 1 bounces off the occupied class, worker 0 passes and leaves), then worker 1 wakes
+up and leaves through the shared root, then 146 resumes of the finished worker 0: 150 steps -/
+def fairRunOfGDuo : List I2N.Trav.GlobalN.StepN :=
+  runOfGDuo ++ [(1, ⟨none, 0⟩, 82)] ++ List.replicate 146 (0, ⟨none, 0⟩, 82)
+
+/-- non-vacuity: the run is fair with window 2, bumps nothing, contains a back-off step, and has the
+`(24·3 + 2 + 1)·2 = 150` steps the theorem asks for -/
+example : I2N.Trav.Fair.FairW gDuo 2 (initState gDuo 2 []) fairRunOfGDuo ∧
+    I2N.Trav.Fair.bumpFreeB gDuo (initState gDuo 2 []) fairRunOfGDuo = true ∧
+    fairRunOfGDuo.length = 150 ∧
+    pcIsBounce ((I2N.Trav.GlobalN.runStepsN gDuo (initState gDuo 2 []) (fairRunOfGDuo.take 2)).wd 1).pc = true := by
+  decide +kernel
+example := multi_worker_terminates_fair_partial gDuo (by decide) (by decide) (by decide) (by decide) 2 (by decide)
+  (by decide) (by decide +kernel) [] 2 (by decide) fairRunOfGDuo (by decide +kernel) (by decide +kernel)
+  (I2N.Trav.Fair.bumpFree_of_B _ _ _ (by decide +kernel)) (by decide +kernel) (by decide +kernel)
+example : pcIsDone ((I2N.Trav.GlobalN.runStepsN gDuo (initState gDuo 2 []) fairRunOfGDuo).wd 0).pc = true ∧
+    pcIsDone ((I2N.Trav.GlobalN.runStepsN gDuo (initState gDuo 2 []) fairRunOfGDuo).wd 1).pc = true := by decide +kernel
+
+/-- Witness that `0 < K` cannot be dropped from `multi_worker_terminates_fair_partial`: with `K = 0` the empty run is fair
+and long enough, and nobody has moved. -/
+theorem window_zero_is_vacuous :
+    I2N.Trav.Fair.FairW gDuo 0 (initState gDuo 2 []) [] ∧
+    (24 * I2N.Trav.Global.resultBound gDuo + gDuo.workers.length + 1) * 0 ≤ ([] : List I2N.Trav.GlobalN.StepN).length ∧
+    pcIsDone ((I2N.Trav.GlobalN.runStepsN gDuo (initState gDuo 2 []) []).wd 0).pc = false := by decide +kernel
 
 end I2N.Props.C02
